@@ -10,8 +10,6 @@ import Pulsar.Proofs.GoSrcLimit
 namespace Pulsar
 open Pulsar
 
-theorem discard_bit : ∀ fl : Nat, fl < 256 → decide (fl &&& 1 ≠ 0) = fl.testBit 0 := by decide +kernel
-
 theorem C14_src_unmarshal_options (input : Xf.Rec.protoiface_UnmarshalInput) (hf : input.Flags < 256)
     (hd : -9223372036854775808 ≤ input.Depth ∧ input.Depth ≤ 9223372036854775807) :
     Xf.runtime_UnmarshalInputToOptions input =
@@ -19,7 +17,11 @@ theorem C14_src_unmarshal_options (input : Xf.Rec.protoiface_UnmarshalInput) (hf
             RecursionLimit := nestedLimit input.Depth } := by
   unfold Xf.runtime_UnmarshalInputToOptions
   rw [src_nestedRecursionLimit _ hd]
-  simp only [Res.bind_ok, Res.pure_eq, discard_bit _ hf]
+  simp only [Res.bind_ok, Res.pure_eq, Res.ok.injEq, Xf.Rec.proto_UnmarshalOptions.mk.injEq, and_true, true_and]
+  -- what is left mentions the flags byte only: decided for each of its 256 values, however the source tests the bit
+  generalize input.Flags = fl at hf ⊢
+  revert fl
+  decide +kernel
 
 /-- DiscardUnknown is forwarded unchanged to every nested decode -/
 theorem C14_src_discard_forwarded (input : Xf.Rec.protoiface_UnmarshalInput) (hf : input.Flags < 256)
